@@ -9,7 +9,7 @@ git -C $M fetch -q origin && git -C $M checkout -q --detach origin/HEAD 2>/dev/n
 git -C $M checkout -q -- . 
 git -C $M apply "$patch" || { echo "patch does not apply"; exit 2; }
 for p in "$@"; do
-  out=$(cd /verif && VERIF_REPO=$M timeout 1800 ./check $p quick 2>&1 | grep -E "^(OK|VIOLATION)" | cut -c1-200)
+  out=$(cd "$(dirname "$(readlink -f "$0")")/.." && VERIF_REPO=$M timeout 1800 ./check $p quick 2>&1 | grep -E "^(OK|VIOLATION)" | cut -c1-200)
   echo "[$p] $out"
 done
 git -C $M checkout -q -- .
